@@ -46,12 +46,31 @@ fn check_ops(a: f64, b: f64) -> Option<Cex> {
     }
 }
 
-fn check(a: f64, b: f64) -> Option<Cex> {
-    let r = guarded(|| {
+type Rel = (bool, bool, bool, bool, Option<Ordering>, bool);
+fn rel(a: f64, b: f64) -> Result<Rel, String> {
+    guarded(|| {
         let (x, y) = (f80::from(a), f80::from(b));
         (x < y, x <= y, x > y, x >= y, x.partial_cmp(&y), x == y)
-    });
-    let want = (a < b, a <= b, a > b, a >= b, a.partial_cmp(&b), a.partial_cmp(&b) == Some(Ordering::Equal));
+    })
+}
+fn rel_want(a: f64, b: f64) -> Rel {
+    (a < b, a <= b, a > b, a >= b, a.partial_cmp(&b), a.partial_cmp(&b) == Some(Ordering::Equal))
+}
+/// is this disagreement an instance of one of the RECORDED defects (known_findings.json)?  `<=` / `>=` true and partial_cmp Some(Equal) with a
+/// NaN operand; `==` true for identical NaN patterns; `==` false for zeros of different sign.  Anything else is new.
+fn known_class(a: f64, b: f64, got: &Rel, want: &Rel) -> bool {
+    if a.is_nan() || b.is_nan() {
+        let same_pattern = a.to_bits() == b.to_bits();
+        return !got.0 && !got.2 && got.1 && got.3 && got.4 == Some(Ordering::Equal) && got.5 == same_pattern;
+    }
+    if a == 0.0 && b == 0.0 && a.to_bits() != b.to_bits() {
+        return (got.0, got.1, got.2, got.3, got.4) == (want.0, want.1, want.2, want.3, want.4) && !got.5;
+    }
+    false
+}
+fn check(a: f64, b: f64) -> Option<Cex> {
+    let r = rel(a, b);
+    let want = rel_want(a, b);
     match r {
         Ok(got) if got == want => None,
         other => Some(Cex {
@@ -120,6 +139,8 @@ pub fn run(_seed: u64, replay: Option<String>) -> Outcome {
         return Outcome { cex: Some(c), cases };
     }
     // ordered operands first, so that a *new* violation is reported ahead of the known NaN / signed-zero findings
+    let known: Vec<String> = std::env::var("VERIF_KNOWN_INPUTS").unwrap_or_default().split('|').filter(|x| !x.is_empty()).map(|x| x.to_string()).collect();
+    let mut at_known: Option<Cex> = None;
     let v = vals();
     for pass in 0..2 {
         for &a in &v {
@@ -130,7 +151,14 @@ pub fn run(_seed: u64, replay: Option<String>) -> Outcome {
                 }
                 cases += 1;
                 if let Some(c) = check(a, b) {
-                    return Outcome { cex: Some(c), cases };
+                    // the recorded inputs of known findings do not end the enumeration: what lies behind them is still explored; the first of
+                    // them is reported at the end if nothing new was found
+                    let is_known = !known.is_empty() && rel(a, b).map(|g| known_class(a, b, &g, &rel_want(a, b))).unwrap_or(false);
+                    if is_known {
+                        if at_known.is_none() { at_known = Some(c); }
+                    } else {
+                        return Outcome { cex: Some(c), cases };
+                    }
                 }
                 if pass == 0 {
                     cases += 1;
@@ -141,5 +169,15 @@ pub fn run(_seed: u64, replay: Option<String>) -> Outcome {
             }
         }
     }
-    Outcome { cex: None, cases }
+    // instances of the recorded defects were met: answer with the recorded input itself (if it still fails), so that the caller can match it
+    if at_known.is_some() {
+        for k in &known {
+            let p: Vec<&str> = k.split(',').collect();
+            if p.len() == 2 {
+                let (a, b) = (f64::from_bits(u64::from_str_radix(p[0], 16).unwrap_or(0)), f64::from_bits(u64::from_str_radix(p[1], 16).unwrap_or(0)));
+                if let Some(c) = check(a, b) { return Outcome { cex: Some(c), cases }; }
+            }
+        }
+    }
+    Outcome { cex: at_known, cases }
 }
